@@ -39,13 +39,15 @@ def spec_matrix(c, kind, v):
     raise ValueError(kind)
 
 
-def run_substr(c, kind, vals):
-    """LEX cut: `values` (the numbers found in the string) is an arbitrary list of that length"""
+def run_substr(c, kind, vals, lead=''):
+    """LEX cut: `values` (the numbers found in the string) is an arbitrary list of that length.
+    `lead` is what separates this item from the previous one in a transform list (parse_transform
+    splits on ')' and hands the separator on as a prefix): blanks and/or one comma"""
     if c.mode == 'sym':
         c.cut_at('parser._parse_transform_substr', 'values', lambda v: list(vals))
-        s = kind + '(' + ' '.join('0' for _ in vals)
+        s = lead + kind + '(' + ' '.join('0' for _ in vals)
     else:
-        s = kind + '(' + ' '.join(repr(float(x)) for x in vals)
+        s = lead + kind + '(' + ' '.join(repr(float(x)) for x in vals)
     return c.matrix_rows(c.call('parser._parse_transform_substr', s))
 
 
@@ -60,6 +62,22 @@ def transform_kind_means_what_the_spec_says(c, kind, n):
         c.assume(ops.ne(co, 0))
     M = run_substr(c, kind, v)
     c.ensures('%s(%d values)==SVG-matrix' % (kind, n), mat_eq(M, spec_matrix(c, kind, v)))
+
+
+LEADS = {'blank': ' ', 'comma': ',', 'comma-blank': ', ', 'blank-comma-blank': ' , ', 'newline': '\n  '}
+
+
+@contract('C17', 'parser._parse_transform_substr', params=[{'kind': k, 'lead': l, '_no_bounded': False} for k in KINDS for l in LEADS], budget=120)
+def transform_kind_after_a_list_separator(c, kind, lead):
+    """an item that is not the first of a transform list arrives with the separator in front
+    (the SVG grammar allows blanks and/or a comma between transforms): same matrix"""
+    n = KINDS[kind][-1]
+    v = [c.real('v%d' % i) for i in range(n)]
+    if kind in ('skewX', 'skewY'):
+        co, si = c.cos_sin_deg(v[0])
+        c.assume(ops.ne(co, 0))
+    M = run_substr(c, kind, v, LEADS[lead])
+    c.ensures('%s-after-%s==SVG-matrix' % (kind, lead), mat_eq(M, spec_matrix(c, kind, v)))
 
 
 @contract('C17', 'parser._parse_transform_substr',
